@@ -48,9 +48,6 @@ Definition act14 (prev : option Z) (a : action) (w h : Z) : option s14 :=
   | AOther => Some {| a_prev := prev; a_mode := MPend POther |}
   end.
 
-Definition is_callback (o : origin) : bool :=
-  match o with OCallback _ _ => true | _ => false end.
-
 Definition step14 (nps : list nat) (s : s14) (e : entry) : option s14 :=
   let prev := a_prev s in
   match a_mode s with
